@@ -736,9 +736,100 @@ class Inliner:
                                for t_, v_ in zip(tg, vs) if getattr(v_, 'id', None) != t_]
                         return out or ast.copy_location(ast.Pass(), n)
                 return n
+        def const_int(e):
+            if isinstance(e, ast.Constant) and isinstance(e.value, int) and not isinstance(e.value, bool):
+                return e.value
+            if isinstance(e, ast.BinOp) and isinstance(e.op, (ast.Add, ast.Sub, ast.Mult)):
+                a, b = const_int(e.left), const_int(e.right)
+                if a is None or b is None:
+                    return None
+                return a + b if isinstance(e.op, ast.Add) else a - b if isinstance(e.op, ast.Sub) else a * b
+            if isinstance(e, ast.UnaryOp) and isinstance(e.op, ast.USub) and const_int(e.operand) is not None:
+                return -const_int(e.operand)
+            return None
+
+        tables = {}
+
+        def unroll(stmts):
+            """`for i in range(<constants>)` with at most 8 iterations and a body without jumps: the body once per value of i"""
+            out = []
+            for st in stmts:
+                for fld in ('body', 'orelse', 'finalbody'):
+                    L = getattr(st, fld, None)
+                    if isinstance(L, list) and L and isinstance(L[0], ast.stmt) and not isinstance(st, (ast.FunctionDef, ast.ClassDef)):
+                        setattr(st, fld, unroll(L))
+                if isinstance(st, ast.Try):
+                    for h in st.handlers:
+                        h.body = unroll(h.body)
+                it_ = st.iter if isinstance(st, ast.For) else None
+                if isinstance(it_, ast.Name) and it_.id in tables:
+                    it_ = tables[it_.id]
+                if isinstance(st, ast.For) and isinstance(st.target, ast.Tuple) and not st.orelse and isinstance(it_, (ast.Tuple, ast.List)) and \
+                        1 <= len(it_.elts) <= 8 and all(isinstance(e_, (ast.Tuple, ast.List)) and len(e_.elts) == len(st.target.elts) for e_ in it_.elts) and \
+                        all(isinstance(x, ast.Name) for x in st.target.elts):
+                    # a loop over a literal table of tuples: one copy of the body per row
+                    jumps = any(isinstance(n, (ast.Break, ast.Continue)) for n in _walk_no_defs(st.body))
+                    tnames = [x.id for x in st.target.elts]
+                    if not jumps and not any(t_ in _stores(st.body) for t_ in tnames):
+                        for row in it_.elts:
+                            for b in st.body:
+                                out.append(_Subst(dict(zip(tnames, row.elts))).visit(astcopy(b)))
+                        continue
+                if isinstance(st, ast.For) and isinstance(st.target, ast.Name) and not st.orelse and isinstance(st.iter, (ast.Tuple, ast.List)) and \
+                        len(st.iter.elts) <= 8 and not any(isinstance(e_, ast.Starred) for e_ in st.iter.elts):
+                    # a loop over a literal tuple (typically the *args of an inlined helper)
+                    jumps = any(isinstance(n, (ast.Break, ast.Continue)) for n in _walk_no_defs(st.body))
+                    if not jumps and st.target.id not in _stores(st.body):
+                        for e_ in st.iter.elts:
+                            for b in st.body:
+                                out.append(_Subst({st.target.id: e_}).visit(astcopy(b)))
+                        continue
+                if isinstance(st, ast.For) and isinstance(st.target, ast.Name) and not st.orelse and isinstance(st.iter, ast.Call) and \
+                        isinstance(st.iter.func, ast.Name) and st.iter.func.id == 'range' and not st.iter.keywords and 1 <= len(st.iter.args) <= 3:
+                    args = [const_int(a) for a in st.iter.args]
+                    if None not in args:
+                        vals = list(range(*args)) if not (len(args) == 3 and args[2] == 0) else None
+                        jumps = any(isinstance(n, (ast.Break, ast.Continue)) for n in _walk_no_defs(st.body))
+                        reassigned = st.target.id in _stores(st.body)
+                        if vals is not None and len(vals) <= 8 and not jumps and not reassigned:
+                            for v in vals:
+                                for b in st.body:
+                                    nb = _Subst({st.target.id: ast.Constant(value=v)}).visit(astcopy(b))
+                                    out.append(nb)
+                            continue
+                out.append(st)
+            return out
+
+        class F(ast.NodeTransformer):
+            # constant arithmetic left behind by the substitutions: 3 - 1 -> 2
+            def visit_BinOp(self, n):
+                self.generic_visit(n)
+                v = const_int(n)
+                if v is not None and isinstance(n.left, ast.Constant) and isinstance(n.right, ast.Constant):
+                    return ast.copy_location(ast.Constant(value=v), n)
+                return n
         for tree in self.trees.values():
             S().visit(tree)
             T().visit(tree)
+            for fd in [n for n in ast.walk(tree) if isinstance(n, ast.FunctionDef)]:
+                # local tables: a name assigned once, a literal tuple / list of tuples, only ever iterated
+                tables.clear()
+                sto = _stores(fd.body)
+                for n in _walk_no_defs(fd.body):
+                    if isinstance(n, ast.Assign) and len(n.targets) == 1 and isinstance(n.targets[0], ast.Name) and sto.get(n.targets[0].id) == 1 and \
+                            isinstance(n.value, (ast.Tuple, ast.List)) and n.value.elts and all(isinstance(e_, (ast.Tuple, ast.List)) for e_ in n.value.elts):
+                        nm_ = n.targets[0].id
+                        loads = [x for x in _walk_no_defs(fd.body) if isinstance(x, ast.Name) and x.id == nm_ and isinstance(x.ctx, ast.Load)]
+                        iters = [x for x in _walk_no_defs(fd.body) if isinstance(x, ast.For) and isinstance(x.iter, ast.Name) and x.iter.id == nm_]
+                        if loads and len(loads) == len(iters):
+                            tables[nm_] = n.value
+                fd.body = unroll(fd.body)
+                if tables:
+                    fd.body = [st for st in fd.body if not (isinstance(st, ast.Assign) and isinstance(st.targets[0], ast.Name) and st.targets[0].id in tables and
+                                                           not any(isinstance(x, ast.Name) and x.id == st.targets[0].id and isinstance(x.ctx, ast.Load)
+                                                                   for x in ast.walk(fd)))] or fd.body
+                _groups_desugar(fd)
+            F().visit(tree)
             _drop_pass(tree)
 
     # ------------------------------------------------------------------------------------------------ 4. pieces collected in a list and joined
@@ -834,8 +925,7 @@ class Inliner:
         self.inline()
         self.unbound_calls()
         self.join_form()
-        if self.log:
-            self.simplify()
+        self.simplify()
         for tree in self.trees.values():
             ast.fix_missing_locations(tree)
         return self.log
@@ -863,3 +953,33 @@ def _drop_pass(tree):
                 kept = [x for x in L if not isinstance(x, ast.Pass)]
                 if kept and len(kept) != len(L):
                     setattr(node, fld, kept)
+
+
+def _groups_desugar(fd):
+    """`a, b, c = m.groups()` with m a regex match object: every later read of a / b / c is m.group(1) / (2) / (3)
+    (when a, b, c are assigned nowhere else and m is not rebound in between -- checked per enclosing block)."""
+    def walk_blocks(stmts):
+        i = 0
+        while i < len(stmts):
+            st = stmts[i]
+            for fld in ('body', 'orelse', 'finalbody'):
+                L = getattr(st, fld, None)
+                if isinstance(L, list) and L and isinstance(L[0], ast.stmt) and not isinstance(st, (ast.FunctionDef, ast.ClassDef)):
+                    walk_blocks(L)
+            if isinstance(st, ast.Assign) and len(st.targets) == 1 and isinstance(st.targets[0], ast.Tuple) and isinstance(st.value, ast.Call) and \
+                    isinstance(st.value.func, ast.Attribute) and st.value.func.attr == 'groups' and not st.value.args and isinstance(st.value.func.value, ast.Name) and \
+                    all(isinstance(x, ast.Name) for x in st.targets[0].elts):
+                mv = st.value.func.value.id
+                names = [x.id for x in st.targets[0].elts]
+                rest = stmts[i + 1:]
+                sto = _stores(rest)
+                if mv not in sto and not any(n_ in sto for n_ in names):
+                    env = {n_: ast.Call(func=ast.Attribute(value=ast.Name(id=mv, ctx=ast.Load()), attr='group', ctx=ast.Load()),
+                                        args=[ast.Constant(value=k_ + 1)], keywords=[]) for k_, n_ in enumerate(names)}
+                    for j in range(i + 1, len(stmts)):
+                        stmts[j] = _Subst(env).visit(stmts[j])
+                        ast.fix_missing_locations(stmts[j])
+                    del stmts[i]
+                    continue
+            i += 1
+    walk_blocks(fd.body)
